@@ -52,6 +52,11 @@ REFINED = ["Repr::reduce", "Repr::reduce_with_hint", "Repr::reduce2",
            "the plain run stays below 2^62 bits (runG_eq_run_below_memory) and then stops only with DivideByZero (history_values_guarded_below_memory); "
            "Relaxed = RBig for pow WITHOUT the 'whenever both return' hypothesis: below memory both return, same value, canonicalize(Relaxed result) = stored RBig pair "
            "(relaxed_pow_equals_rbig_below_memory; helper reduced_components_le in Proofs/Ratio/PowSmall)",
+           "round 8 (Props/C04Pow section 8): Relaxed = RBig over GUARDED histories (runG, op qp.prog, the real code): a guarded run that does not stop with "
+           "the allocation panic IS the plain run, every word size (runG_eq_run_of_no_alloc_panic); two register files denoting the same numbers, neither guarded "
+           "run stopping with the allocation panic => same stop (done / DivideByZero), same value in every register, canonicalize(Relaxed register) = stored RBig pair "
+           "(history_relaxed_equals_rbig_guarded, history_canonicalize_equals_rbig_guarded); below 2^62 bits per pow result the no-panic hypothesis is discharged "
+           "(history_relaxed_equals_rbig_guarded_below_memory)",
            "histories: Relaxed = RBig over whole programs (history_relaxed_equals_rbig, history_canonicalize_equals_rbig), reduce2 invariant over "
            "Relaxed-only histories (history_relaxed_reduce2_invariant)"]
 FRONTIER = ["dashu-int kernels used by the rational layer are taken at their contracts, and EVERY one of them is now linked by theorem (Props/C04Link, "
@@ -65,7 +70,9 @@ FRONTIER = ["dashu-int kernels used by the rational layer are taken at their con
             "below its up-front buffer guard): powChecked states the exact power and Props/C04Pow covers these inputs, but neither side can be EXECUTED "
             "(the real code would really allocate up to 2^61 bytes / compute for hours; the outcome depends on the allocator) — kept, same reason as C01's entry; "
             "the older `prog` op still runs the unguarded pow (its generator keeps exponents small); `qp.prog` runs the guarded one — round 7: proved to be the "
-            "same function on every program whose pow results stay below 2^62 bits (runG_eq_run_below_memory), so `prog` is no longer a separate trusted model there",
+            "same function on every program whose pow results stay below 2^62 bits (runG_eq_run_below_memory), so `prog` is no longer a separate trusted model there; round 8: the 'Relaxed = RBig' history clause is now also stated for the guarded run "
+            "(history_relaxed_equals_rbig_guarded) — what stays open: when exactly ONE of the two guarded runs raises the allocation panic (stored pairs 9/3 vs 3/1 can differ "
+            "in whether the guard fires, only beyond 2^62 bits) the theorem says nothing about the registers after that step",
 ]
 RULE = ("operands n/d built from size classes {tiny, 1 word, 2 words (inline boundary), 3-6 words, 10-40 words} x bit patterns "
         "x signs, then related to each other the way the code branches: denominators coprime (g = 1 shortcut) or sharing a "
@@ -766,7 +773,7 @@ LEVEL_TEXT = ("Machine-checked Lean 4 theorems, for all integers (no size bound)
               "common power of two; history theorems over register programs (invariants, values, Relaxed = RBig over whole histories, "
               "reduce2 fixed point); sign corners of pow/inv; predicates; pow with the allocation panics of the integer powers under it "
               "(exact reduced result, or the documented allocation panic and then a component of the exact power has at least 2^62 bits — conversely below 2^62 bits no panic, "
-              "guarded histories = unguarded histories, Relaxed = RBig with both returning; the guard is C01's proved "
+              "guarded histories = unguarded histories, Relaxed = RBig with both returning, Relaxed = RBig over guarded histories that do not hit the allocation panic; the guard is C01's proved "
               "panic class, composed by value with C01's mirrored kernels — Props/C04Pow). Tie A: all 24 operator macro bodies of rational/src/{add,mul,div}.rs, "
               "their 48 invocations and 22 Repr-level function bodies (reductions, rounding, inverse, sign, powers, constructors incl. the const Euclid loop) are "
               "regenerated from /repo on every run and proved equal to the model functions for all inputs (Props/C04Gen). Tie B: differential execution (numerator()/denominator() as stored, all ownership/assign call forms, "
